@@ -637,4 +637,253 @@ Section Generic.
           destruct (b_size vb =? d_size signed)%Z; destruct (String.eqb vmt (d_mt signed));
           cbn [negb andb orb]; try rewrite Hdec; try reflexivity; repeat split; discriminate.
   Qed.
+
+  Lemma present_keys_signed : forall i an, present_keys (expected_signed i an) = expected_keys i.
+  Proof.
+    intros i an. unfold present_keys, expected_keys. rewrite signed_anns.
+    unfold expected_signed. destruct (i_target i); cbn [d_atype d_data d_platform d_urls target_anns];
+      destruct (_ ++ i_meta i); reflexivity.
+  Qed.
+
+  Definition exp_sobs (i : input) (a : alg) (an : string) : sobs :=
+    mk_sobs a mt_payload ["targetArtifact"] (expected_keys i) (Some (expected_signed i an))
+            (i_now i / second)%Z (exp_expiry i) (exp_agent i).
+
+  (* closed form of the whole pipeline on a well-formed input *)
+  Lemma pipeline_closed : forall rp i kn a hn an,
+    wf i = true -> spec_row (i_ks i) spec_table = Some (kn, a, hn, an) ->
+    let v := gverify rp i (exp_env i a an) in
+    gpipe rp i = mk_obs 0 (exp_shash i an) (exp_plugsig i kn hn) (exp_plugenv i) (Some (exp_sobs i a an))
+                        (v_code v) (v_hash v) (v_ret v) (v_meta v).
+  Proof.
+    intros rp i kn a hn an Hwf Hrow v.
+    destruct (wf_elim i Hwf) as (Hl & Hsz & Hj).
+    pose proof (legal_elim i kn a hn an Hl Hrow) as F.
+    unfold gpipe, pipeline. fold gsign. rewrite (sign_closed i kn a hn an Hwf Hrow).
+    cbn [r_env r_err r_shash r_plugsig r_plugenv]. fold gverify. fold v.
+    unfold view, exp_env, exp_sobs. cbn [e_alg e_ctype e_payload e_time e_expiry e_agent].
+    rewrite codec_top, codec_tgt, present_keys_signed.
+    rewrite codec_rt by (rewrite signed_size; assumption).
+    rewrite (json_rt_signed i kn an F). reflexivity.
+  Qed.
+
+  Lemma opt_str_eqb_refl : forall o : option string, opt_eqb String.eqb o o = true.
+  Proof. intros [s|]; simpl; [apply str_eqb_refl|reflexivity]. Qed.
+
+  Lemma secs_zero : forall d, (0 <= d)%Z -> Z.rem d second = 0%Z -> (d / second =? 0)%Z = (d =? 0)%Z.
+  Proof.
+    intros d Hd Hr. destruct (d =? 0)%Z eqn:E.
+    - apply Z.eqb_eq in E. subst. reflexivity.
+    - apply Z.eqb_neq in E. pose proof (dur_pos_secs _ Hr Hd E). apply Z.eqb_neq. lia.
+  Qed.
+
+  (* the model (over any codec meeting the hypotheses) satisfies the property oracle *)
+  Lemma pipeline_spec_ok : forall i, wf i = true -> spec_ok i (gpipe true i) = true.
+  Proof.
+    intros i Hwf. destruct (wf_elim i Hwf) as (Hl & Hsz & Hj).
+    unfold spec_ok. rewrite Hl. cbn [negb].
+    destruct (spec_row (i_ks i) spec_table) as [[[[kn a] hn] an]|] eqn:Hrow; [|reflexivity].
+    pose proof (legal_elim i kn a hn an Hl Hrow) as F.
+    rewrite (pipeline_closed true i kn a hn an Hwf Hrow).
+    pose proof (verify_spec true i kn a hn an Hwf Hrow) as V. cbv zeta in V.
+    cbn [o_sign o_shash o_plugsig o_plugenv o_env o_verify o_vhash o_ret o_meta].
+    destruct F.
+    assert (Hnd : nodup_keys (d_anns (expected_signed i an)) = true) by (rewrite signed_anns; assumption).
+    (* signing part *)
+    assert (S1 : opt_eqb String.eqb (exp_shash i an) (if is_blob (i_target i) then Some an else None) = true)
+      by apply opt_str_eqb_refl.
+    assert (S2 : match i_signer i with
+                 | Plug true _ _ => opt_eqb pair_eqb (exp_plugsig i kn hn) (Some (kn, hn))
+                 | Plug false _ _ => opt_eqb Z.eqb (exp_plugenv i) (Some (i_dur i / second)%Z)
+                 | Local => true
+                 end = true).
+    { unfold exp_plugsig, exp_plugenv. destruct (i_signer i) as [|[] ? ?]; cbn; [reflexivity| |apply Z.eqb_refl].
+      unfold pair_eqb. cbn. rewrite !str_eqb_refl. reflexivity. }
+    assert (S3 : alg_eqb a a = true) by (destruct a; reflexivity).
+    assert (S4 : opt_eqb descr_eqb (Some (expected_signed i an)) (Some (expected_signed i an)) = true)
+      by (cbn; apply descr_eqb_refl; assumption).
+    assert (S5 : opt_eqb Z.eqb (exp_expiry i)
+                   (if (i_dur i / second =? 0)%Z then None else Some (i_now i / second + i_dur i / second)%Z) = true).
+    { unfold exp_expiry. rewrite secs_zero by assumption. destruct (i_dur i =? 0)%Z; cbn; [reflexivity|apply Z.eqb_refl]. }
+    rewrite S1, S2. unfold exp_sobs. cbn [s_alg s_ctype s_top s_tgt s_payload s_expiry s_time].
+    rewrite S3, S4, S5, !list_str_eqb_refl, str_eqb_refl. cbn [andb N.eqb].
+    (* verification part *)
+    destruct (positive i (expected_signed i an) an) eqn:P.
+    - rewrite V. cbn [v_code v_hash v_ret v_meta]. unfold exp_ret.
+      rewrite opt_str_eqb_refl. cbn [opt_eqb]. rewrite (amap_eqb_refl _ Hnd).
+      destruct (i_vtarget i) as [vd|vb vmt vok]; cbn [target_anns] in *.
+      + rewrite (descr_eqb_refl vd lf_vtnodup0). reflexivity.
+      + rewrite (descr_eqb_refl _ Hnd). reflexivity.
+    - destruct V as (V1 & V2 & V3). rewrite V2, V3.
+      destruct (v_code _); [congruence|reflexivity].
+  Qed.
 End Generic.
+
+(* ---------- the concrete model ---------- *)
+
+Lemma concrete_rt : forall d, in_int64 (d_size d) -> dec_descr d = Some (json_rt d).
+Proof.
+  intros d [H1 H2]. unfold dec_descr.
+  replace (d_size d >? max_int64)%Z with false by (symmetry; rewrite Z.gtb_ltb; apply Z.ltb_ge; exact H2).
+  replace (d_size d <? - max_int64 - 1)%Z with false by (symmetry; apply Z.ltb_ge; exact H1).
+  reflexivity.
+Qed.
+
+Definition c_recode (d : descr) : descr := set_size d (jws_number (d_size d)).
+
+Lemma model_with_eq : forall rp, model_with rp = pipeline descr (fun d => d) dec_descr (fun _ => ["targetArtifact"]) present_keys c_recode rp.
+Proof. reflexivity. Qed.
+
+Lemma model_spec_ok : forall i, wf i = true -> spec_ok i (model i) = true.
+Proof.
+  intros i H. unfold model. rewrite model_with_eq.
+  apply (pipeline_spec_ok descr (fun d => d) dec_descr (fun _ => ["targetArtifact"]) present_keys c_recode);
+    auto using concrete_rt.
+Qed.
+
+Lemma wf_row : forall i, wf i = true -> exists kn a hn an, spec_row (i_ks i) spec_table = Some (kn, a, hn, an).
+Proof.
+  intros i H. destruct (wf_elim i H) as (Hl & _). unfold legal in Hl.
+  destruct (spec_row (i_ks i) spec_table) as [[[[kn a] hn] an]|] eqn:E.
+  - eauto.
+  - rewrite !andb_false_r in Hl. simpl in Hl. rewrite ?andb_false_r in Hl. discriminate.
+Qed.
+
+Lemma model_closed : forall rp i kn a hn an,
+  wf i = true -> spec_row (i_ks i) spec_table = Some (kn, a, hn, an) ->
+  let v := verify descr dec_descr rp i (exp_env descr (fun d => d) i a an) in
+  model_with rp i = mk_obs 0 (exp_shash i an) (exp_plugsig i kn hn) (exp_plugenv i) (Some (exp_sobs i a an))
+                           (v_code v) (v_hash v) (v_ret v) (v_meta v).
+Proof.
+  intros rp i kn a hn an H Hrow. rewrite model_with_eq.
+  apply (pipeline_closed descr (fun d => d) dec_descr (fun _ => ["targetArtifact"]) present_keys c_recode);
+    auto using concrete_rt.
+Qed.
+
+Lemma model_verify : forall rp i kn a hn an,
+  wf i = true -> spec_row (i_ks i) spec_table = Some (kn, a, hn, an) ->
+  let signed := expected_signed i an in
+  let v := verify descr dec_descr rp i (exp_env descr (fun d => d) i a an) in
+  if positive i signed an
+  then v = mk_vres 0 (exp_shash i an) (Some (exp_ret rp i signed)) (Some (d_anns signed))
+  else v_code v <> 0%N /\ v_ret v = None /\ v_meta v = None.
+Proof.
+  intros rp i kn a hn an H Hrow.
+  apply (verify_spec descr (fun d => d) dec_descr concrete_rt) with (kn := kn) (hn := hn); assumption.
+Qed.
+
+(* ---------- the statements of the property ---------- *)
+
+(* OCI: what SignOCI signs, Verify verifies, and the payload is the resolved
+   descriptor reduced to media type, digest, size and annotations + metadata *)
+Lemma roundtrip_oci : forall i d vd,
+  wf i = true -> i_target i = TOCI d -> i_vtarget i = TOCI vd -> i_trusted i = true ->
+  d_digest vd = d_digest d -> d_size vd = d_size d -> d_mt vd = d_mt d ->
+  submap (i_vmeta i) (d_anns d ++ i_meta i) = true ->
+  let signed := mk_descr (d_mt d) (d_digest d) (d_size d) [] (d_anns d ++ i_meta i) "" "" "" in
+  let o := model i in
+  o_sign o = 0%N /\ o_verify o = 0%N /\ o_ret o = Some vd /\ o_meta o = Some (d_anns d ++ i_meta i) /\
+  exists s, o_env o = Some s /\ s_payload s = Some signed /\ s_top s = ["targetArtifact"] /\
+            s_tgt s = (match d_anns d ++ i_meta i with [] => [] | _ => ["annotations"] end) ++ ["digest"; "mediaType"; "size"].
+Proof.
+  intros i d vd Hwf Ht Hv Htr Hdg Hsz Hmt Hsub signed o.
+  destruct (wf_row i Hwf) as (kn & a & hn & an & Hrow).
+  pose proof (model_closed true i kn a hn an Hwf Hrow) as C. cbv zeta in C.
+  pose proof (model_verify true i kn a hn an Hwf Hrow) as V. cbv zeta in V.
+  assert (Hs : expected_signed i an = signed) by (unfold expected_signed; rewrite Ht; reflexivity).
+  assert (P : positive i (expected_signed i an) an = true).
+  { rewrite Hs. unfold positive. rewrite Htr, Ht, Hv. unfold signed at 1. cbn [d_anns]. rewrite Hsub.
+    unfold content_equal, signed. cbn [d_size d_digest d_mt]. rewrite Hdg, Hsz, Hmt, Z.eqb_refl, !str_eqb_refl. reflexivity. }
+  rewrite P in V. subst o. unfold model. rewrite C, V.
+  cbn [o_sign o_verify o_ret o_meta o_env v_code v_hash v_ret v_meta].
+  unfold exp_ret. rewrite Hv, Hs. repeat split; try reflexivity.
+  exists (exp_sobs i a an). unfold exp_sobs. cbn [s_payload s_top s_tgt]. rewrite Hs.
+  repeat split. unfold expected_keys. rewrite Ht. reflexivity.
+Qed.
+
+(* blobs: the digest is the blob's digest under the algorithm the specification
+   binds to the key spec ([an] of the spec_table row); successful VerifyBlob
+   returns exactly the signed descriptor; the metadata read back is the caller's *)
+Lemma roundtrip_blob : forall i b mt ok vb vmt vok kn a hn an,
+  wf i = true -> i_target i = TBlob b mt ok -> i_vtarget i = TBlob vb vmt vok -> i_trusted i = true ->
+  spec_row (i_ks i) spec_table = Some (kn, a, hn, an) ->
+  blob_digest vb an = blob_digest b an -> b_size vb = b_size b ->
+  (vmt = "" \/ (vmt = mt /\ vok = true)) ->
+  submap (i_vmeta i) (i_meta i) = true ->
+  let signed := mk_descr mt (blob_digest b an) (b_size b) [] (i_meta i) "" "" "" in
+  let o := model i in
+  o_sign o = 0%N /\ o_shash o = Some an /\ o_verify o = 0%N /\ o_vhash o = Some an /\
+  o_ret o = Some signed /\ o_meta o = Some (i_meta i) /\
+  exists s, o_env o = Some s /\ s_alg s = a /\ s_payload s = Some signed /\ s_top s = ["targetArtifact"] /\
+            s_tgt s = (match i_meta i with [] => [] | _ => ["annotations"] end) ++ ["digest"; "mediaType"; "size"].
+Proof.
+  intros i b mt ok vb vmt vok kn a hn an Hwf Ht Hv Htr Hrow Hdg Hsz Hvmt Hsub signed o.
+  pose proof (model_closed true i kn a hn an Hwf Hrow) as C. cbv zeta in C.
+  pose proof (model_verify true i kn a hn an Hwf Hrow) as V. cbv zeta in V.
+  assert (Hs : expected_signed i an = signed) by (unfold expected_signed; rewrite Ht; reflexivity).
+  assert (P : positive i (expected_signed i an) an = true).
+  { rewrite Hs. unfold positive. rewrite Htr, Ht, Hv. unfold signed. cbn [d_anns d_digest d_size d_mt]. rewrite Hsub.
+    rewrite Hdg, Hsz, Z.eqb_refl, str_eqb_refl.
+    destruct Hvmt as [->|[-> ->]]; [reflexivity|]. rewrite str_eqb_refl, orb_true_r. reflexivity. }
+  rewrite P in V. subst o. unfold model. rewrite C, V.
+  cbn [o_sign o_shash o_verify o_vhash o_ret o_meta o_env v_code v_hash v_ret v_meta].
+  unfold exp_ret, exp_shash. rewrite Hv, Ht, Hs. cbn [is_blob]. repeat split; try reflexivity.
+  exists (exp_sobs i a an). unfold exp_sobs. cbn [s_alg s_payload s_top s_tgt]. rewrite Hs.
+  repeat split. unfold expected_keys. rewrite Ht. reflexivity.
+Qed.
+
+(* before a20d301, successful VerifyBlob returned the zero descriptor *)
+Lemma blob_descriptor_old : forall i b mt ok vb vmt vok kn a hn an,
+  wf i = true -> i_target i = TBlob b mt ok -> i_vtarget i = TBlob vb vmt vok ->
+  spec_row (i_ks i) spec_table = Some (kn, a, hn, an) ->
+  positive i (expected_signed i an) an = true ->
+  o_verify (model_old i) = 0%N /\ o_ret (model_old i) = Some zero_descr.
+Proof.
+  intros i b mt ok vb vmt vok kn a hn an Hwf Ht Hv Hrow P.
+  pose proof (model_closed false i kn a hn an Hwf Hrow) as C. cbv zeta in C.
+  pose proof (model_verify false i kn a hn an Hwf Hrow) as V. cbv zeta in V.
+  rewrite P in V. unfold model_old. rewrite C, V. cbn. unfold exp_ret. rewrite Hv. split; reflexivity.
+Qed.
+
+(* expiry = signing time + requested duration (both in the envelope, in seconds);
+   signature algorithm = the one the specification binds to the key spec *)
+Lemma expiry_and_alg : forall i kn a hn an,
+  wf i = true -> spec_row (i_ks i) spec_table = Some (kn, a, hn, an) ->
+  exists s, o_env (model i) = Some s /\ s_alg s = a /\ s_ctype s = mt_payload /\
+            s_time s = (i_now i / second)%Z /\
+            s_expiry s = (if (i_dur i =? 0)%Z then None else Some (s_time s + i_dur i / second)%Z).
+Proof.
+  intros i kn a hn an Hwf Hrow.
+  pose proof (model_closed true i kn a hn an Hwf Hrow) as C. cbv zeta in C.
+  unfold model. rewrite C. cbn [o_env]. exists (exp_sobs i a an). repeat split.
+Qed.
+
+(* what a signature-generator plugin is asked: the key spec name and the hash
+   name the specification binds to the key; an envelope-generator plugin is
+   asked for the requested duration in seconds *)
+Lemma plugin_requests : forall i kn a hn an,
+  wf i = true -> spec_row (i_ks i) spec_table = Some (kn, a, hn, an) ->
+  match i_signer i with
+  | Local => o_plugsig (model i) = None /\ o_plugenv (model i) = None
+  | Plug true _ _ => o_plugsig (model i) = Some (kn, hn)
+  | Plug false _ _ => o_plugenv (model i) = Some (i_dur i / second)%Z
+  end.
+Proof.
+  intros i kn a hn an Hwf Hrow.
+  pose proof (model_closed true i kn a hn an Hwf Hrow) as C. cbv zeta in C.
+  unfold model. rewrite C. cbn [o_plugsig o_plugenv]. unfold exp_plugsig, exp_plugenv.
+  destruct (i_signer i) as [|[] ? ?]; auto.
+Qed.
+
+(* a request outside the promise (signer not trusted, other content, metadata
+   not signed) does not verify, and nothing is returned *)
+Lemma negative_rejected : forall i kn a hn an,
+  wf i = true -> spec_row (i_ks i) spec_table = Some (kn, a, hn, an) ->
+  positive i (expected_signed i an) an = false ->
+  o_verify (model i) <> 0%N /\ o_ret (model i) = None /\ o_meta (model i) = None.
+Proof.
+  intros i kn a hn an Hwf Hrow P.
+  pose proof (model_closed true i kn a hn an Hwf Hrow) as C. cbv zeta in C.
+  pose proof (model_verify true i kn a hn an Hwf Hrow) as V. cbv zeta in V.
+  rewrite P in V. unfold model. rewrite C. exact V.
+Qed.
